@@ -1092,36 +1092,42 @@ def _end_model_construction(model):
         # If the the attributes to the class have been
         # collected in _tx_obj_attrs we need to do a proper
         # initialization at this point.
-        for obj in the_parser._user_class_inst:
-            try:
-                # Get the attributes which have been collected
-                # in metamodel.obj and remove them from this dict.
-                attrs = obj.__class__._tx_obj_attrs.pop(id(obj))
+        try:
+            for obj in the_parser._user_class_inst:
+                try:
+                    # Get the attributes which have been collected
+                    # in metamodel.obj and remove them from this dict.
+                    attrs = obj.__class__._tx_obj_attrs.pop(id(obj))
 
-                # First try to apply attributes directly. It might
-                # not be possible for some (e.g. __slots__ are used)
-                for name, value in attrs.items():
-                    with suppress(Exception):
-                        # Not possible to set the attribute
-                        setattr(obj, name, value)
+                    # First try to apply attributes directly. It might
+                    # not be possible for some (e.g. __slots__ are used)
+                    for name, value in attrs.items():
+                        with suppress(Exception):
+                            # Not possible to set the attribute
+                            setattr(obj, name, value)
 
-                # We shall only pass to __init__ attributes that are
-                # defined by the meta-model, and `parent` if applicable
-                attrs = {
-                    k: v
-                    for k, v in attrs.items()
-                    if k in obj.__class__._tx_attrs or k == "parent"
-                }
+                    # We shall only pass to __init__ attributes that are
+                    # defined by the meta-model, and `parent` if applicable
+                    attrs = {
+                        k: v
+                        for k, v in attrs.items()
+                        if k in obj.__class__._tx_attrs or k == "parent"
+                    }
 
-                # Call constructor for custom initialization
-                obj.__init__(**attrs)
+                    # Call constructor for custom initialization
+                    obj.__init__(**attrs)
 
-            except TypeError as e:
-                # Add class name information in case of wrong
-                # constructor parameters
-                e.args += (f"for class {obj.__class__.__name__}",)
-                the_parser.dprint(traceback.print_exc())
-                raise e
+                except TypeError as e:
+                    # Add class name information in case of wrong
+                    # constructor parameters
+                    e.args += (f"for class {obj.__class__.__name__}",)
+                    the_parser.dprint(traceback.print_exc())
+                    raise e
+        except:  # noqa
+            # A constructor failed: forget the attributes collected for the
+            # objects that have not been initialized.
+            the_parser._drop_user_obj_attrs()
+            raise
 
 
 def _remove_all_affected_models_in_construction(model):
@@ -1151,9 +1157,12 @@ def _abort_model_construction(model):
     and forget the collected attributes of its user class instances.
     """
     if hasattr(model, "_tx_reference_resolver") and hasattr(model, "_tx_parser"):
+        # The root object may be a user class instance: its attributes are
+        # reachable only as long as the user classes are instrumented.
+        the_parser = model._tx_parser
         del model._tx_reference_resolver
-        model._tx_parser._restore_user_attr_methods()
-        model._tx_parser._drop_user_obj_attrs()
+        the_parser._restore_user_attr_methods()
+        the_parser._drop_user_obj_attrs()
 
 
 class ReferenceResolver:
